@@ -129,7 +129,8 @@ def Router.removeRule (cenv : CompileEnv) (R : Router) (rule : Str) : Router × 
 
 /-- `RadiRouter.remove(name=…)`: the name is popped first, then the tree is edited with the
 route's pattern (a trailing `*` of that pattern acts as the wildcard marker there too), then
-`del self.routes[route.pattern]` -/
+`del self.routes[route.pattern]` and `_remove_named_routers({route.pattern})` (the other names
+of the route go with it) -/
 def Router.removeName (R : Router) (name : Str) : Router × Except ErrName Unit :=
   match dictGet R.named name with
   | none => (R, .error "KeyError")
@@ -143,7 +144,7 @@ def Router.removeName (R : Router) (name : Str) : Router × Except ErrName Unit 
       | .ok t =>
         let R := { R with tree := t }
         if R.routes.any (·.1 == route.pattern) then
-          ({ R with routes := dictPop R.routes route.pattern }, .ok ())
+          (({ R with routes := dictPop R.routes route.pattern } : Router).removeNamed [route.pattern], .ok ())
         else (R, .error "KeyError")
 
 /-- `node[HOOKS][hook_type] = hook` seen as a new value of the slot -/
